@@ -81,7 +81,7 @@ func newExec(p *Prog, name string) *Exec {
 
 func (e *Exec) initState() *State {
 	e.S.Declare("HV0", "Int")
-	st := &State{hv: "HV0", reach: "true", heap: map[string]string{}, ghost: map[string]Val{}, top: "A0", larr: map[*ssa.Alloc]*LocalArr{}, held: map[string]bool{}}
+	st := &State{hv: "HV0", reach: "true", heap: map[string]string{}, ghost: map[string]Val{}, top: "A0", larr: map[*ssa.Alloc]*LocalArr{}, held: map[string]bool{}, frozen: map[string]string{}, fieldIdent: map[string]string{}}
 	for _, g := range sortedKeys(e.P.CS.Ghosts) {
 		gd := e.P.CS.Ghosts[g]
 		k, t := e.specType("", gd.Type)
@@ -733,7 +733,11 @@ func (p *Prog) depClosure(prop string) map[*ssa.Function]bool {
 							}
 						}
 						if sel != nil {
-							if m := p.SSA.MethodValue(sel); m != nil && m.Synthetic == "" && inModule(m) {
+							if m := p.SSA.MethodValue(sel); m != nil && m.Synthetic != "" && len(m.Blocks) > 0 {
+								// a method promoted from an embedded field (generated message types embed
+								// *fix.Message): the wrapper's body calls the real method
+								scan(m, depth+1)
+							} else if m != nil && m.Synthetic == "" && inModule(m) {
 								if p.contractFor(m) != nil {
 									add(m)
 								} else if len(m.Blocks) > 0 {
